@@ -1354,7 +1354,8 @@ pub fn modulo() -> impl Function {
     Pointwise::bivariate(
         (data_type::Integer::default(), data_type::Integer::default()),
         data_type::Integer::default(),
-        |a, b| (a % b).into(),
+        // i64::MIN % -1 overflows although its mathematical value is 0
+        |a, b| a.wrapping_rem(b).into(),
     )
 }
 
